@@ -828,6 +828,63 @@ func CornerTrade(rng *rand.Rand) string {
 	}
 }
 
+// DoublePushBlock: the king is in check by a slider whose line crosses the FOURTH rank of a file on which the
+// side to move has a pawn at home with a friendly pawn directly in front of it (so no double push), the front
+// pawn itself pinned to the king (so it may not step onto the line either): a mate, unless something else helps.
+func DoublePushBlock(rng *rand.Rand) string {
+	for {
+		bd := make([]int, 64)
+		sq := func(f, r int) int { return r*8 + f }
+		f := 1 + rng.Intn(5)
+		bd[sq(f, 1)], bd[sq(f, 2)] = 1, 1
+		var k int
+		if rng.Intn(2) == 0 {
+			// king beside the front pawn: pinned along the third rank, checked along the diagonal through (f,4th)
+			k = sq(f-1, 2)
+			x := f + 1 + rng.Intn(7-f)
+			bd[sq(x, 2)] = []int{12, 13}[rng.Intn(2)]
+			bd[sq(f+1, 4)] = []int{11, 13}[rng.Intn(2)]
+		} else {
+			// king beside the fourth-rank square: checked along the fourth rank, front pawn pinned on the diagonal
+			k = sq(f-1, 3)
+			x := f + 1 + rng.Intn(7-f)
+			bd[sq(x, 3)] = []int{12, 13}[rng.Intn(2)]
+			if rng.Intn(2) == 0 || f+2 > 7 {
+				bd[sq(f+1, 1)] = []int{11, 13}[rng.Intn(2)]
+			} else {
+				bd[sq(f+2, 0)] = []int{11, 13}[rng.Intn(2)]
+			}
+		}
+		bd[k] = 6
+		ek := rng.Intn(64)
+		if bd[ek] != 0 || (abs(ek%8-k%8) <= 1 && abs(ek/8-k/8) <= 1) {
+			continue
+		}
+		bd[ek] = 14
+		for i := 0; i < 7 && kingHasSafeMove(bd, 0); i++ {
+			s := rng.Intn(64)
+			if bd[s] == 0 && s != sq(f, 3) {
+				bd[s] = []int{13, 12, 11, 10}[rng.Intn(4)]
+			}
+		}
+		// now and then a helper that may or may not save the day
+		if rng.Intn(3) == 0 {
+			s := rng.Intn(64)
+			if bd[s] == 0 && s != sq(f, 3) {
+				bd[s] = []int{2, 3, 1}[rng.Intn(3)]
+				if bd[s] == 1 && (s/8 == 0 || s/8 == 7) {
+					bd[s] = 2
+				}
+			}
+		}
+		if kingHasSafeMove(bd, 0) || !countsOK(bd) || Attacked(bd, ek, 0) || !Attacked(bd, k, 1) {
+			continue
+		}
+		nb, stm := transform(rng, bd, 0)
+		return FEN(nb, stm, 0, -1, rng.Intn(20), 1+rng.Intn(60))
+	}
+}
+
 // BoxedKing builds positions in which the king of the side to move has no safe move, so that the
 // answer of the checkmate / stalemate tests hinges on the other pieces: pawn pushes and captures
 // (edge files included), double-push blocks, pinned defenders, en-passant resolutions.
@@ -1126,7 +1183,30 @@ func EpOnlyMove(rng *rand.Rand) string {
 		// the king: behind the target on the push file, on the capturers' rank, on a diagonal through the target or
 		// through a capturer, or anywhere
 		var k int
-		switch rng.Intn(5) {
+		lineSlider := -1 // an enemy slider placed deliberately on the line king -> capturer/pushed pawn -> beyond
+		switch rng.Intn(7) {
+		case 5:
+			// king on the push file on its own side of the pushed pawn, enemy rook/queen on the far end of the file:
+			// the capturing pawn, once it has landed on the target square, is what shields the king
+			r := toR - (1+rng.Intn(3))*(epR-toR)
+			far := epR + 2*(epR-toR)
+			if r < 0 || r > 7 || far < 0 || far > 7 {
+				continue
+			}
+			k = r*8 + f
+			lineSlider = far*8 + f
+		case 6:
+			// king behind a capturer on the diagonal capturer -> target, enemy bishop/queen beyond the target
+			cp := caps[rng.Intn(len(caps))]
+			dfile, drank := f-cp%8, epR-capR
+			n, m := 1+rng.Intn(3), 1+rng.Intn(2)
+			kf, kr := cp%8-n*dfile, capR-n*drank
+			sf, sr := f+m*dfile, epR+m*drank
+			if !onBoard(kf, kr) || !onBoard(sf, sr) {
+				continue
+			}
+			k = kr*8 + kf
+			lineSlider = sr*8 + sf
 		case 0:
 			r := epR + 1 + rng.Intn(2)
 			if c == 1 {
@@ -1157,6 +1237,16 @@ func EpOnlyMove(rng *rand.Rand) string {
 			continue
 		}
 		bd[k] = 8*c + 6
+		if lineSlider >= 0 {
+			if bd[lineSlider] != 0 {
+				continue
+			}
+			if lineSlider%8 == f {
+				bd[lineSlider] = 8*(1-c) + []int{4, 5}[rng.Intn(2)]
+			} else {
+				bd[lineSlider] = 8*(1-c) + []int{3, 5}[rng.Intn(2)]
+			}
+		}
 		// an enemy slider on the far side of the line king -> pawns
 		for i, n := 0, 1+rng.Intn(3); i < n; i++ {
 			sq := rng.Intn(64)
